@@ -103,7 +103,7 @@ def _eval_cond(kind, expr, dropped):
 
     def rep(m):
         name = m.group(1)
-        if '_HEADER_GUARD_' in name or name.endswith('_INCLUDE_GUARD') or name.endswith('_HPP'):
+        if '_HEADER_GUARD' in name or name.endswith('_INCLUDE_GUARD') or name.endswith('_HPP'):
             return ' False '
         if name not in CONFIG_MACROS:
             raise ExtractionBreak('preprocessor conditional on unknown macro %s' % name)
